@@ -219,6 +219,10 @@ func runRga(cfg *config) error {
 	}
 	res.Evaluations = len(cases)
 	res.Nontrivial = len(seen)
+	// finding P13 replayed on the real structures (Proofs/ArrayWitness.v)
+	if st, api := p13Witness(); true {
+		res.Notes = append(res.Notes, "finding P13 (Proofs/ArrayWitness.v set_after_move_lands_at_the_old_slot) on the real code: crdt.Array after insert 10, insert 20, move 10 behind 20, Set(10 := 99) shows "+st+"; through Document.Update: "+api)
+	}
 	res.Rule = "random call sequences (InsertAfter with position or element anchors, MoveAfter, DeleteByCreatedAt, Set, purge of removed elements and dead positions; tickets from 4 actors with partly out-of-order lamports; some unknown ids) on the real crdt.Array; non-trivial = contains a move or a purge; distinct = distinct rendered case"
 	const shard = 250
 	res.CaseShard = shard
